@@ -193,6 +193,20 @@ def no_clobber(prog, res):
     test = flag_edges(f, "testMode", "true")
     ok = bool(test) and not any(t in f.flow([(e[1], 0) for e in test]) for t in opens)
     res.check(ok, R, "test-mode-opens-nothing", f.loc, "test mode never opens a destination", "test mode can open/truncate a file")
+    # a destination opened WITHOUT a source name (several sources into one -o file) skips FIO_openDstFile's same-file guard:
+    # every such open is preceded by a comparison of the destination with the sources (a call reaching UTIL_isSameFile)
+    cmpfns = {g.name for g in prog.fns_in("programs/fileio.c") if "UTIL_isSameFile" in g.callees()}
+    nshared = 0
+    for g in prog.fns_in("programs/fileio.c"):
+        for b, i, c in g.calls("FIO_openDstFile"):
+            if len(c.get("a", [])) >= 3 and const_val(strip_casts(c["a"][2])) == 0:
+                nshared += 1
+                chk = g.find_roots(lambda x: x.get("k") == "call" and x.get("c") in cmpfns)
+                tm = flag_edges(g, "testMode", "true")
+                res.check(bool(chk) and g.must_pass(via_roots=chk, via_edges=tm, targets=[(b, i)]), R, "%s:shared-destination-is-not-a-source" % g.name, "%s:%s" % (g.file, c.get("l")),
+                          "the destination is compared with every source before it is opened (and an existing file removed)",
+                          "%s opens the shared destination without comparing it with the sources: `zstd -f a b -o a` removes a before reading it" % g.name)
+    res.check(nshared >= 2, R, "shared-destination:sites", "programs/fileio.c", "%d opens of a shared destination" % nshared, "opens of a shared destination: %d" % nshared)
     # the confirmation helper says `proceed` only for an accepted letter
     u = prog.fn("UTIL_requireUserConfirmation")
     found = cond_edges(u, lambda c: c.get("k") == "bin" and c["op"] == "==" and const_val(c["rhs"]) == 0 and
@@ -203,10 +217,18 @@ def no_clobber(prog, res):
     res.check(ok, R, "confirmation:proceed-only-on-accepted-letter", u.loc,
               "returns 0 (proceed) only when the character read is one of the acceptable letters",
               "UTIL_requireUserConfirmation can answer `proceed` without having read an acceptable letter (e.g. EOF on stdin)")
+    # strchr(letters, ch) also finds the terminating NUL: the accepting path must additionally pass `ch != 0`
+    # (the value tested is the one handed to strchr as its second argument)
+    chn = {strip_casts(c["a"][1]).get("n") for b, i, c in u.calls("strchr") if len(c.get("a", [])) == 2}
+    nonnul = guards.rel_edges(u, lambda a: strip_casts(a).get("k") == "ref" and strip_casts(a).get("n") in chn, "==", lambda b_: const_val(strip_casts(b_)) == 0, truth=False)
+    ok = bool(nonnul) and u.must_pass(via_edges=nonnul, via_roots=refuse, targets=maybe0)
+    res.check(ok, R, "confirmation:nul-is-not-a-letter", u.loc, "the proceed answer also requires the character to be non-NUL",
+              "UTIL_requireUserConfirmation accepts the answer on strchr() alone, which matches the letters' terminating NUL: a NUL byte on stdin "
+              "overwrites an existing file without -f")
     stdin_e = cond_edges(u, lambda c: c.get("k") == "ref" and c.get("rk") == "p" and c.get("pi") == 3, "true")
     ok = bool(stdin_e) and not any(t in u.flow([(e[1], 0) for e in stdin_e]) for t in maybe0)
     res.check(ok, R, "confirmation:stdin-is-input-refuses", u.loc, "when stdin carries data the answer is `abort`", "prompt consumed from a stdin that carries the data")
-    res.need(R, 7)
+    res.need(R, 11)
 
 
 def rm_disabled(prog, res):
